@@ -31,6 +31,17 @@ def runProcessG (st : Store) (c : CacheSess) (r : R ((CacheView × List CatchUp)
       | .ok (st', d') => .ok (st', { c' with d := d' })
     | _ => .error .panic
 
+def applyWritesG (st : Store) : List IoW → Store
+  | [] => st
+  | .dataWrite b :: r => applyWritesG { st with data := appendTo st.data b } r
+  | .indexWrite b :: r => applyWritesG { st with index := appendTo st.index b } r
+
+def runPushDataG (st : Store) (d : DataSess) (r : R ((DataView × List IoW) × Unit)) : R (Store × DataSess) :=
+  match r with
+  | .ok ((v, tr), _) =>
+    .ok (applyWritesG st tr, { d with dataLen := v.dataLen, entries := v.entries, lastFull := v.lastFull, lastTime := v.lastTime })
+  | .error f => .error f
+
 instance : Repr Sampler where
   reprPrec s _ := s!"(bucket={s.bucket} tsSum={s.tsSum} vSum={s.vSum} sampled={s.sampled})"
 
@@ -194,6 +205,15 @@ def main : IO Unit := do
   firstDiff "Sampler::process" ((pairs samplers [0, 7, 18446744073709551615]).filter (fun (s, t) => (s.tsSum + t) / s.bucket < 2^64) |>.map fun (s, t) => ((s.bucket, s.sampled, s.tsSum, s.vSum, t), s))
     (fun ((_, _, _, _, t), s) => (.ok (runS s (Sampler_process s t [200, 1, 0, 0])) : R String))
     (fun ((_, _, _, _, t), s) => .ok (showP (samplerProc s t [200, 1, 0, 0])))
+  -- push_data: payload size x last full timestamp x timestamp (around the section limit) x line; the writes carried out
+  let pdSess : List DataSess := (pairs [0, 1, 2, 3, 4] (pairs [none, some 100] [0, 46])).map fun (p, (lf, dl)) =>
+    ({ p := p, hdrLen := 0, ihdrLen := 4, dataLen := dl, entries := (match lf with | some t => [⟨t, 0⟩] | none => []), lastFull := lf, lastTime := lf } : DataSess)
+  firstDiff "Data::push_data" ((pairs pdSess [0, 99, 100, 101, 65633, 65634, 65635, 65636, 18446744073709551615]).map fun (d, t) => ((d.p, d.lastFull, d.dataLen, t), d))
+    (fun ((_, _, _, t), d) => (.ok (reprR (runPushDataG st0 d (Data_push_data d.view t [7, 8, 9, 10, 11]))) : R String))
+    (fun ((_, _, _, t), d) => .ok (reprR (pushData st0 d t [7, 8, 9, 10, 11])))
+  firstDiff "Index::update" (pairs [0, 5, 18446744073709551615] [0, 46, 4294967296])
+    (fun (t, o) => (.ok (toString (repr (Index_update ⟨[⟨1, 0⟩], some 1⟩ t o |>.toOption.map fun r => (r.1.1.entries, r.1.1.last_timestamp, r.1.2)))) : R String))
+    (fun (t, o) => .ok (toString (repr (some (([⟨1, 0⟩, ⟨t, o⟩] : List IEntry), some t, [IoW.indexWrite (le8 t), IoW.indexWrite (le8 o)])))))
   -- push_line: payload length x range x timestamp; compare the decisions (error class / new range / the two actions)
   let plShow := fun (r : R ((SeriesView × List CatchUp) × Unit)) => (match r with
     | .error f => reprR (.error f : R Nat)
